@@ -138,7 +138,9 @@ class BundleFlattener(ElabPass):
         Reconnect the flattened Signals to any Instances connected to said Bundles."""
 
         # Cache the state of the Module's IOs before flattening
-        module._pre_flattening_io = copy.copy(io(module))
+        # (Unless an earlier run, which did not finish elaborating `module`, got here before: its IOs have been flattened since.)
+        if module._pre_flattening_io is None:
+            module._pre_flattening_io = copy.copy(io(module))
 
         # Remove and replace each `BundleInstance` from the Module
         while module.bundles:
